@@ -351,6 +351,7 @@ class EnforcerPool:
     def _raise_errors(self):
         """Raise errors if any exist, aggregate if more than one."""
         if self._errors:
-            if len(self._errors) > 1:
-                raise AggregateValidationError(self.name, self._errors)
-            raise self._errors.pop()
+            errors, self._errors = self._errors, []
+            if len(errors) > 1:
+                raise AggregateValidationError(self.name, errors)
+            raise errors.pop()
